@@ -16,22 +16,30 @@ import tagger_hooks as th
 METHODS = ['nla', 'chic', 'qflag']
 
 
-def cli_args(inp, out, method, mode, threads, tmp, no_rejects):
+def cli_args(inp, out, method, mode, threads, tmp, no_rejects, extra=()):
     a = [inp, '-method', method, '-o', out]
-    if mode == 'multi':
+    if mode == 'multi' and threads == 0:
+        a += ['--multiprocess']          # nothing else: -tagthreads unset (all CPUs), -temp_folder '.' (the child's cwd)
+    elif mode == 'multi':
         a += ['--multiprocess', '-tagthreads', str(threads), '-temp_folder', tmp]
+    a += list(extra)
     if no_rejects:
         a += ['--no_rejects']
     return a
 
 
-def make_case(cid, workdir, layout, seed, method, mode, threads, no_rejects, plan_only=False):
+def make_case(cid, workdir, layout, seed, method, mode, threads, no_rejects, plan_only=False, extra=(), index_state=''):
     cdir = os.path.join(workdir, 'case_%s' % cid)
     os.makedirs(cdir, exist_ok=True)
     inp = os.path.join(cdir, 'in.bam')
     truth = tg.write(inp, layout, random.Random(seed), method)
+    if index_state == 'missing':         # verify_and_fix_bam builds it
+        os.remove(inp + '.bai')
+    elif index_state == 'older':         # same content, but older than the BAM: rebuilt
+        os.utime(inp + '.bai', (os.path.getmtime(inp) - 100, os.path.getmtime(inp) - 100))
     out = os.path.join(cdir, 'out.bam')
-    case = {'id': cid, 'argv': cli_args(inp, out, method, mode, threads, cdir, no_rejects), 'out': out, 'inp': inp,
+    case = {'id': cid, 'argv': cli_args(inp, out, method, mode, threads, cdir, no_rejects, extra), 'out': out, 'inp': inp,
+            'extra': list(extra), 'index_state': index_state,
             'truth': truth, 'layout': layout, 'bamseed': seed, 'method': method, 'mode': mode, 'threads': threads,
             'no_rejects': no_rejects, 'plan_only': plan_only, 'snapshots': False}
     if plan_only:
@@ -60,7 +68,8 @@ def events_for(case, res, tid):
     inrecs = input_records(case)
     need = sorted(set(r['ref'] for r in inrecs))
     base = {'tid': tid, 'mode': case['mode'], 'method': case['method'], 'threads': case['threads'], 'shape': tg.shape(case['layout']),
-            'layout': desc, 'bamseed': case['bamseed'], 'no_rejects': case['no_rejects'], 'history': case.get('history', '')}
+            'layout': desc, 'bamseed': case['bamseed'], 'no_rejects': case['no_rejects'], 'history': case.get('history', ''),
+            'extra': case['extra'], 'index_state': case['index_state']}
     plan = [e for e in pe if e['ev'] == 'plan']
     idx = [e for e in pe if e['ev'] == 'idxstats']
     if plan:
@@ -95,14 +104,15 @@ def main():
     import singlecellmultiomics.universalBamTagger.bamtagmultiome  # noqa: F401  warm import before forking
     cases = []
 
-    def add(layout, method, mode, threads, no_rejects, plan_only=False, bamseed=None):
+    def add(layout, method, mode, threads, no_rejects, plan_only=False, bamseed=None, extra=(), index_state=''):
         cid = len(cases) + 1
         cases.append(make_case(cid, workdir, layout, bamseed if bamseed is not None else rng.randrange(1 << 30), method, mode,
-                               threads, no_rejects, plan_only))
+                               threads, no_rejects, plan_only, extra, index_state))
 
     if replay:
         add(tg.undescribe(replay['layout']), replay['method'], replay['mode'], replay['threads'], replay['no_rejects'],
-            plan_only=(replay['ev'] == 'plan' and replay.get('plan_only', False)), bamseed=replay['bamseed'])
+            plan_only=(replay['ev'] == 'plan' and replay.get('plan_only', False)), bamseed=replay['bamseed'],
+            extra=replay.get('extra') or (), index_state=replay.get('index_state') or '')
     else:
         # (1) spec -> code, plan only: every layout of the bounded model (cheap: stops after the plan is handed over)
         for s in scn['plan']:
@@ -173,6 +183,19 @@ def main():
             tg.write(other, first, random.Random(rng.randrange(1 << 30)), method)
             c2['prerun_argv'] = [other] + c2['argv'][1:]
             c2['history'] = 'second_call_same_process'
+        # (8) the literal default-options command line (-tagthreads unset = all CPUs, -temp_folder '.'), inputs whose index is
+        #     missing or older than the BAM (verify_and_fix_bam rebuilds it), and - beyond the statement's default options -
+        #     -max_associated_fragments 1, which makes the iterator's overflow arm emit duplicates as molecules of their own
+        for k in range(2 if tier == 'quick' else 8):
+            lay = tg.random_layout(rng, max_contigs=5)
+            add(lay, METHODS[k % 3], 'multi', 0, False)
+        for k, (state, mode) in enumerate([('missing', 'single'), ('missing', 'multi'), ('older', 'single'), ('older', 'multi')]):
+            add(tg.random_layout(rng, max_contigs=4), METHODS[k % 2], mode, 2, False, index_state=state)
+        ov = L(('chr1', 250_000, ['pair', 'dup', 'dup_lane', 'dup', 'single']), ('chrM', 2500, ['pair', 'dup', 'umi_bridge']))
+        for method in ('nla', 'chic'):
+            bs = rng.randrange(1 << 30)
+            add(ov, method, 'single', 1, False, bamseed=bs, extra=['-max_associated_fragments', '1'])
+            add(ov, method, 'multi', 2, False, bamseed=bs, extra=['-max_associated_fragments', '1'])
         # (7) history: the INPUT path is re-used - the same process tags in.bam, the file is replaced by a BAM with reads on
         #     other contigs (other contig set), and the same command runs again
         for k, (method, mode) in enumerate([('nla', 'multi'), ('chic', 'single'), ('nla', 'multi'), ('qflag', 'multi')]):
